@@ -226,6 +226,15 @@ def evaluate(e, env):
                 if f_ is None: raise Raised("TypeError")
                 r_ = any(x_ is a or x_ == a for x_ in list(call_method_of(b, c_, f_, [], {}, env)))
             return r_ if isinstance(op, ast.In) else not r_
+        if isinstance(op, (ast.In, ast.NotIn)) and isinstance(b, dict) and not isinstance(b, Inst) and b is env.get("self") and any(isinstance(k_, str) and k_.startswith(".") for k_ in b):
+            # `x in self` inside a method of a class whose object is a sample: the class's own __contains__ decides
+            f_ = (env.get("__functions__") or {}).get("__contains__")
+            if f_ is not None and isinstance(getattr(f_, "_parent", None), ast.ClassDef):
+                env["__in_left__"] = a
+                try: r_ = bool(evaluate(ast.Call(func=ast.Attribute(value=ast.Name(id="self", ctx=ast.Load()), attr="__contains__", ctx=ast.Load()), args=[ast.Name(id="__in_left__", ctx=ast.Load())], keywords=[]), env))
+                finally: env.pop("__in_left__", None)
+                return r_ if isinstance(op, ast.In) else not r_
+            raise Unsupported("membership test on the sample object self")
         if isinstance(op, ast.In): return a in b
         if isinstance(op, ast.NotIn): return a not in b
         if isinstance(op, (ast.Is, ast.IsNot)):
@@ -254,6 +263,13 @@ def evaluate(e, env):
         if isinstance(v, Inst) and env.get("__classdefs__") and not isinstance(e.slice, ast.Slice):
             c_, f_ = find_method(env["__classdefs__"], v[".__cls__"], "__getitem__")
             if f_ is not None: return call_method_of(v, c_, f_, [evaluate(e.slice, env)], {}, env)
+        if isinstance(v, dict) and not isinstance(v, Inst) and v is env.get("self") and not isinstance(e.slice, ast.Slice) and any(isinstance(k_, str) and k_.startswith(".") for k_ in v):
+            # `self[key]` inside a method of a class whose object is a sample: the class's own __getitem__
+            f_ = (env.get("__functions__") or {}).get("__getitem__")
+            if f_ is not None and isinstance(getattr(f_, "_parent", None), ast.ClassDef):
+                env["__sub_key__"] = evaluate(e.slice, env)
+                try: return evaluate(ast.Call(func=ast.Attribute(value=ast.Name(id="self", ctx=ast.Load()), attr="__getitem__", ctx=ast.Load()), args=[ast.Name(id="__sub_key__", ctx=ast.Load())], keywords=[]), env)
+                finally: env.pop("__sub_key__", None)
         if isinstance(e.slice, ast.Slice):
             lo = evaluate(e.slice.lower, env) if e.slice.lower else None; hi = evaluate(e.slice.upper, env) if e.slice.upper else None
             st = evaluate(e.slice.step, env) if e.slice.step else None
@@ -281,6 +297,10 @@ def evaluate(e, env):
         if isinstance(e.func, ast.Attribute) and e.func.attr in ("replace", "strip", "lstrip", "rstrip", "removeprefix", "removesuffix", "startswith", "endswith", "lower", "upper", "casefold", "join", "split", "rsplit", "partition", "rpartition", "format", "translate", "count", "find", "rfind", "index", "isdigit", "isalpha", "isalnum", "isidentifier", "isupper", "islower", "isspace", "title", "capitalize", "zfill", "splitlines", "expandtabs", "ljust", "rjust", "center", "swapcase"):
             recv = evaluate(e.func.value, env)
             if isinstance(recv, str): return getattr(recv, e.func.attr)(*_args(e.args, env))      # Python's own str semantics (trusted base)
+        if isinstance(e.func, ast.Attribute) and e.func.attr in ("read", "getvalue", "readline", "readlines", "write", "seek", "close"):
+            try: recv_ = evaluate(e.func.value, env)
+            except Unsupported: recv_ = None
+            if isinstance(recv_, _io.StringIO): return _trusted_call(getattr(recv_, e.func.attr), _args(e.args, env), _kwargs(e.keywords, env))       # an in-memory text buffer of the trusted standard library
         if isinstance(e.func, ast.Attribute) and e.func.attr in _PATTERN_METHODS + _MATCH_METHODS:
             try: recv_ = evaluate(e.func.value, env)
             except Unsupported: recv_ = None
@@ -519,6 +539,7 @@ class Trusted:
     names of its base classes, so that handlers of the evaluated code catch it as they would at run time."""
     def __init__(s, obj, names): s.obj, s.names = obj, set(names)
 import itertools as _it
+import io as _io
 class _AttrDict(dict):
     """obj.__dict__ of a sample object: the attributes by name; stores and deletions go through to the object"""
     def __init__(s, o):
@@ -561,6 +582,7 @@ TRUSTED = {
     "collections": Trusted(__import__("collections"), ("OrderedDict", "defaultdict", "namedtuple", "deque", "Counter")),
     "itertools": Trusted(_BoundedItertools, ("count", "chain", "repeat", "islice", "product")),
     # the pure string functions of os.path (nothing that looks at the file system or the working directory)
+    "io": Trusted(_io, ("StringIO",)),
     "os": {".path": Trusted(__import__("os").path, ("basename", "dirname", "splitext", "join", "normpath", "split", "isabs", "sep")), ".sep": __import__("os").sep, ".linesep": "\n"},
     "operator": Trusted(__import__("operator"), ("attrgetter", "itemgetter", "eq", "ne", "lt", "gt", "le", "ge", "add", "sub", "not_", "is_", "is_not", "contains")),
 }
@@ -924,8 +946,8 @@ def _exec(stmts, env, max_steps=2000):
                 if s.name in (env.get("__functions__") or {}):       # the nearer definition wins over a same-named helper of an outer scope
                     env["__functions__"] = {k_: v_ for k_, v_ in env["__functions__"].items() if k_ != s.name}
                 continue
-            if isinstance(s, ast.Expr) and isinstance(s.value, ast.Call):
-                evaluate(s.value, env); continue
+            if isinstance(s, ast.Expr) and isinstance(s.value, (ast.Call, ast.Subscript, ast.Attribute, ast.Name, ast.Compare)):
+                evaluate(s.value, env); continue       # an expression evaluated for its effect (or for the exception it may raise: self[name])
             if isinstance(s, ast.Expr) and isinstance(s.value, ast.Yield):
                 yield (evaluate(s.value.value, env) if s.value.value is not None else None); continue
             if isinstance(s, ast.Expr) and isinstance(s.value, ast.YieldFrom):
